@@ -21,6 +21,8 @@ type World struct {
 	Concurrent bool     // needs the scheduler + bubble
 	Timed      bool     // stalls / late timers may be injected
 	MaxSteps   int
+	TaskStalls bool // single tasks may be descheduled for a while (the world's timing oracles cope)
+	Episodes   bool // the world can be run twice in one simulated process (see RunOne)
 	Run        func(r *R)
 }
 
@@ -62,6 +64,7 @@ type R struct {
 	Faults map[string]int
 	hist   uint64
 	Log    []string
+	Episode int // 0 for the first episode of a run, 1 for the second
 	// OnStuck, if set, is called (on the scheduler's goroutine, everything else blocked) when the run
 	// got stuck with the main task not finished.
 	OnStuck func(report []string)
@@ -208,6 +211,9 @@ func runOne(w *World, tape *sim.Tape, focus string, tier string, trace bool, sch
 		res.Verdict = "done"
 	} else {
 		cfg := sim.Config{Trace: trace, MaxSteps: w.MaxSteps + 3000, SpinLimit: 2500}
+		if w.Episodes {
+			cfg.MaxSteps += w.MaxSteps
+		}
 		if !w.Concurrent {
 			cfg.MaxSteps = 1 << 22 // a whole container history, every synchronisation operation a step
 		}
@@ -223,6 +229,9 @@ func runOne(w *World, tape *sim.Tape, focus string, tier string, trace bool, sch
 			cfg.LatePer1k = []int{0, 0, 0, 250}[tape.Choose(4, "late-rate")]
 			cfg.AsyncTimerChan = tape.Choose(3, "timerchan") == 2
 		}
+		if w.TaskStalls {
+			cfg.TaskStallPer1k = []int{0, 0, 0, 25}[tape.Choose(4, "task-stall-rate")]
+		}
 		r.Cfg = cfg
 		res.Strategy = cfg.Strategy
 		var out *sim.Outcome
@@ -233,7 +242,20 @@ func runOne(w *World, tape *sim.Tape, focus string, tier string, trace bool, sch
 				}
 			}()
 			synctest.Test(theT, func(t *testing.T) {
-				out = sim.Run(tape, cfg, func() { w.Run(r) }, nil)
+				out = sim.Run(tape, cfg, func() {
+					BeginEpisode(0)
+					w.Run(r)
+					// History: one run in four is two episodes of the world, one after the other in
+					// the same simulated process. Whatever the library keeps between uses of a
+					// package - pooled objects, cached settings, package-level variables - is then
+					// carried from the first into the second, which is judged like any other.
+					if w.Episodes && !r.Failed() && r.Choose(4, "second-episode") == 3 {
+						r.Probe("second-episode-in-same-process")
+						r.Episode++
+						BeginEpisode(1)
+						w.Run(r)
+					}
+				}, nil)
 			})
 		}()
 		if out != nil {
@@ -250,6 +272,9 @@ func runOne(w *World, tape *sim.Tape, focus string, tier string, trace bool, sch
 			}
 			if out.Stalls > 0 {
 				r.Faults["stall"] += out.Stalls
+			}
+			if out.TaskStalls > 0 {
+				r.Faults["task_stall"] += out.TaskStalls
 			}
 			if len(out.Panics) > 0 {
 				r.Violate(focus, "panic/"+panicSig(out.Panics[0]), "%s", out.Panics[0])
